@@ -30,6 +30,23 @@
         list / count > 0 → decrement), same form
       `C06_machine_steps_fwd`  the bridge `execFwd` ⟶ iterated `Scc.X86.step` for a block whose labels
         are its own (unique in the text)
+    MEMORY CONTRACTS (memory.rs; proofs in Scc/X86/MemProofs*.lean on the memory-level view `MState` /
+    `mFwd` of MemProofsView.lean, transferred to the machine by `msim_fwd`), all of the same form as
+    share/erase: from EVERY boundary state that represents (`HeapRel`) an abstract heap of
+    Scc/Heap/Model.lean on which the model's operation succeeds, the emitted code — every operand in a
+    register or in a spill slot — runs to its end without a fault; the final state is a boundary state
+    with the SAME rsp, represents the model's result, holds the results in the result temporaries, and
+    `FrameT` lists what may have changed (nothing else: trace, pc, stack outside the spill area, every
+    other register and spill slot):
+      `C06_acquire_block_correct`  `acquire_block` against `Scc.Heap.acquire`: (1) next block of the linear
+        free list, (2) head of the lazy free list with deferred erasure of its three children
+        (`erase_fields`, each child null / count 0 / count > 0), (3) bump of the frontier
+      `C06_store_correct`  `store` against `Scc.Heap.storeObj` for ANY number of fields (one block for
+        up to FIELDS_PER_BLOCK = 3 fields, otherwise a chain of linked blocks; no fields: the null
+        pointer) and EVERY placement of the stored variables and of the acquired-block temporaries
+        (`posTemp`: registers 4..15, then spill slots 1..255 — crossing the boundary included);
+        hypothesis `2 * (|rem| + |toStore|) ≤ 267`: the capacity of utils.rs temporary_from_position
+        (beyond it the generator panics "Out of temporaries")
     Every conclusion includes `Preserved`: nothing but the target, the scratch register TEMP and the
     flags changes (all other registers incl. rsp/HEAP/FREE, every stack word, heap, trace).
   * REGRESSION for the repaired defect D5 (formerly `C06_load_immediate_D5_witness`: a literal outside
@@ -45,6 +62,8 @@
 import Scc.X86.ProofsWf
 import Scc.X86.ProofsStep
 import Scc.X86.ProofsMem
+import Scc.X86.MemProofsHeap
+import Scc.X86.MemProofsStore
 import Scc.AxCut.LinTyping
 
 namespace Scc.X86
@@ -269,6 +288,37 @@ theorem C06_machine_steps_fwd (m : MonCfg) (p : Prog) (codes : List Code) (s s' 
     ∃ k steps', stepN m p k s = .inl (setPS s' (s.pc + codes.length) steps') :=
   steps_fwd m p s.pc codes hb codes.length 0 s s' (by omega) (by omega) rfl (by simpa using hx)
 
+/-! ### memory contracts: acquire_block, store, load -/
+
+/-- `acquire_block` implements `Scc.Heap.acquire` (target in a register or in a spill slot): the target
+ends up holding the acquired block, HEAP/FREE/heap represent the model's result; besides the target
+only TEMP, HEAP, FREE, the flags and the heap change; the code defines exactly fresh labels. -/
+theorem C06_acquire_block_correct (h8 : c.heapBase % 8 = 0) (B : Boundary c st sp)
+    {h h' : Scc.Heap.HState} (R : HeapRel c st h) {t : Temporary} (ht : TempOK t) {new : Nat}
+    (hop : Scc.Heap.acquire h = .ok (h', new)) (k : Nat) :
+    ∃ code, (acquireBlock t).run k = .ok (code, k + 13) ∧ LabsIn code k (k + 13) ∧
+      ∃ st', execFwd c la code st = .ok (st', .next) ∧ Boundary c st' sp ∧ HeapRel c st' h' ∧
+        (∃ w, tempVal sp st' t = some w ∧ w.toNat = new) ∧
+        FrameT sp st st' (fun u => u = t ∨ u = .reg TEMP ∨ u = .reg HEAP ∨ u = .reg FREE) :=
+  acquireBlock_contract h8 B R ht hop k
+
+/-- `store` implements `Scc.Heap.storeObj`: the variables `toStore` at context positions `|rem| …`
+(`EnvFields`: an `ext` variable holds an integer in its second temporary, any other variable a pointer
+in its first and a word in its second temporary — `posTemp n` is utils.rs temporary_from_position) are
+stored as one object; the first temporary of position `|rem|` ends up holding the object pointer.
+Preserved: every variable of `rem`, every second temporary, rsp, the stack outside the spill area. -/
+theorem C06_store_correct (h8 : c.heapBase % 8 = 0) (B : Boundary c st sp) {h h' : Scc.Heap.HState}
+    (R : HeapRel c st h) {toStore rem : Ctx} {fs : List Scc.Heap.Field}
+    (hcap : 2 * (rem.length + toStore.length) ≤ 267)
+    (hE : EnvFields (mview sp st) rem.length toStore fs) {ptr : Nat}
+    (hop : Scc.Heap.storeObj h fs = .ok (h', ptr)) (k : Nat) :
+    ∃ code k', (x86Backend.store toStore rem).run k = .ok (code, k') ∧ k ≤ k' ∧ LabsIn code k k' ∧
+      ∃ st', execFwd c la code st = .ok (st', .next) ∧ Boundary c st' sp ∧ HeapRel c st' h' ∧
+        (∃ w, tempVal sp st' (posTemp (2 * rem.length)) = some w ∧ w.toNat = ptr) ∧
+        FrameT sp st st' (fun u => u = .reg TEMP ∨ u = .reg HEAP ∨ u = .reg FREE ∨
+          ∃ j, u = posTemp (2 * (rem.length + j))) :=
+  store_contract h8 B R hcap hE hop k
+
 /-- what `tempVal` means on the machine: the operand read of an instruction yields that value -/
 theorem C06_tempVal_sound (B : Boundary c st sp) {t : Temporary} (ht : OpndOK t) {v : Word}
     (hv : tempVal sp st t = some v) : readLoc c st (opLoc t) = .ok v := tempVal_readLoc B ht hv
@@ -380,6 +430,85 @@ example : ∃ code st' h', (shareBlockN (.reg 6) 2).run 0 = .ok (code, 1) ∧
     (n := 2) (by decide) hop (by simp [exHeap, Scc.Heap.init]) 0
   exact ⟨code, st', h', hrun, hx, R', hget⟩
 
+theorem exAcquire : Scc.Heap.acquire exHeap =
+    .ok ({ exHeap with heap := 0x10000040, free := 0x10000080 }, 0x10000000) := by
+  simp [Scc.Heap.acquire, Scc.Heap.rd, exHeap, Scc.Heap.init, Scc.Heap.blockSize]
+
+/-- bump allocation into spill slot 5: the slot ends up holding the old HEAP, slot 1 (= 100) is kept -/
+example : ∃ code st', (acquireBlock (.spill 5)).run 0 = .ok (code, 13) ∧
+    execFwd {} (fun _ => none) code exStateH = .ok (st', .next) ∧
+    tempVal exSp st' (.spill 5) = some 0x10000000#64 ∧ tempVal exSp st' (.spill 1) = some 100#64 := by
+  obtain ⟨code, hrun, _, st', hx, _, _, ⟨w, hw, ew⟩, F⟩ := C06_acquire_block_correct (la := fun _ => none)
+    (by decide) exStateH_boundary exStateH_heapRel (t := .spill 5) ⟨by decide, by decide⟩ exAcquire 0
+  refine ⟨code, st', hrun, hx, ?_, ?_⟩
+  · rw [hw]; congr 1; exact BitVec.eq_of_toNat_eq (by rw [ew]; rfl)
+  · rw [F.temps (.spill 1) (show (1 : Nat) < 256 by decide) (by simp [TEMP_eq, HEAP_eq, FREE_eq])]
+    exact exState_slot1
+
+/-- `exStateH` viewed as an environment: position 0 = (rax: undefined, rdx = 7), an `ext` variable;
+position 1 = (rsi = pointer 0x10000080, rdi = -3), a producer -/
+def exCtx : Ctx := [⟨⟨"a", 1⟩, .ext, .i64⟩, ⟨⟨"b", 2⟩, .prd, .i64⟩]
+
+theorem exEnv : EnvFields (mview exSp exStateH) 0 exCtx [.int 7, .ptr 0x10000080 18446744073709551613] := by
+  refine ⟨?_, ?_, trivial⟩
+  · exact ⟨7#64, rfl, rfl⟩
+  · exact ⟨0x10000080#64, BitVec.ofInt 64 (-3), rfl, rfl, rfl⟩
+
+theorem exStore : ∃ h', Scc.Heap.storeObj exHeap [.int 7, .ptr 0x10000080 18446744073709551613] =
+    .ok (h', 0x10000000) := by
+  simp [Scc.Heap.storeObj, heap_storeFields_cons, heap_storeFields_nil, Scc.Heap.restLength, Scc.Heap.storeValues,
+    Scc.Heap.storeValuesRev, Scc.Heap.storeValue, Scc.Heap.storeZeros, Scc.Heap.storeZerosFrom, Scc.Heap.wr,
+    Scc.Heap.acquire, Scc.Heap.rd, Scc.Heap.Mem.get_set, exHeap, Scc.Heap.init, Scc.Heap.fieldsPerBlock,
+    Scc.Heap.BlockPosition.toNat, Scc.Heap.sndOff, Scc.Heap.fstOff, Scc.Heap.fieldOffset, Scc.Heap.blockSize]
+
+/-- one block: both variables of `exCtx` are stored; rax (first temporary of position 0) ends up
+holding the object pointer = the old HEAP -/
+example : ∃ code k' st', (x86Backend.store exCtx []).run 0 = .ok (code, k') ∧
+    execFwd {} (fun _ => none) code exStateH = .ok (st', .next) ∧
+    tempVal exSp st' (.reg 4) = some 0x10000000#64 := by
+  obtain ⟨h', hop⟩ := exStore
+  obtain ⟨code, k', hrun, _, _, st', hx, _, _, ⟨w, hw, ew⟩, _⟩ := C06_store_correct (la := fun _ => none)
+    (by decide) exStateH_boundary exStateH_heapRel (toStore := exCtx) (rem := []) (by decide) exEnv hop 0
+  refine ⟨code, k', st', hrun, hx, ?_⟩
+  have : posTemp (2 * ([] : Ctx).length) = .reg 4 := rfl
+  rw [this] at hw
+  rw [hw]; congr 1; exact BitVec.eq_of_toNat_eq (by rw [ew]; rfl)
+
+/-- four integer variables in rdx, rdi, r9, r11 (second temporaries of positions 0..3) -/
+def exStateS : State :=
+  { exState with regs := #[some exSp, none, some 0x10000000#64, some 0x10000040#64, none, some 1#64, none,
+      some 2#64, none, some 3#64, none, some 4#64, none, none, none, none] }
+
+theorem exStateS_boundary : Boundary {} exStateS exSp :=
+  ⟨rfl, rfl, ⟨cfgOK_default, by decide, by decide, by decide⟩⟩
+
+theorem exStateS_heapRel : HeapRel {} exStateS exHeap :=
+  ⟨rfl, rfl, fun a => by simp [exHeap, Scc.Heap.init, exStateS, exState],
+   ⟨0x10000000#64, rfl, by decide⟩, ⟨0x10000040#64, rfl, by decide⟩⟩
+
+def exCtx4 : Ctx := [⟨⟨"a", 1⟩, .ext, .i64⟩, ⟨⟨"b", 2⟩, .ext, .i64⟩, ⟨⟨"c", 3⟩, .ext, .i64⟩, ⟨⟨"d", 4⟩, .ext, .i64⟩]
+
+theorem exEnv4 : EnvFields (mview exSp exStateS) 0 exCtx4 [.int 1, .int 2, .int 3, .int 4] :=
+  ⟨⟨1#64, rfl, rfl⟩, ⟨2#64, rfl, rfl⟩, ⟨3#64, rfl, rfl⟩, ⟨4#64, rfl, rfl⟩, trivial⟩
+
+theorem exStore4 : ∃ h', Scc.Heap.storeObj exHeap [.int 1, .int 2, .int 3, .int 4] = .ok (h', 0x10000040) := by
+  simp [Scc.Heap.storeObj, heap_storeFields_cons, heap_storeFields_nil, Scc.Heap.restLength, Scc.Heap.storeValues,
+    Scc.Heap.storeValuesRev, Scc.Heap.storeValue, Scc.Heap.storeZeros, Scc.Heap.storeZerosFrom, Scc.Heap.wr,
+    Scc.Heap.acquire, Scc.Heap.rd, Scc.Heap.Mem.get_set, exHeap, Scc.Heap.init, Scc.Heap.fieldsPerBlock,
+    Scc.Heap.BlockPosition.toNat, Scc.Heap.sndOff, Scc.Heap.fstOff, Scc.Heap.fieldOffset, Scc.Heap.blockSize]
+
+/-- a chain of TWO blocks (4 fields): the object pointer is the second acquired block -/
+example : ∃ code k' st', (x86Backend.store exCtx4 []).run 0 = .ok (code, k') ∧
+    execFwd {} (fun _ => none) code exStateS = .ok (st', .next) ∧
+    tempVal exSp st' (.reg 4) = some 0x10000040#64 := by
+  obtain ⟨h', hop⟩ := exStore4
+  obtain ⟨code, k', hrun, _, _, st', hx, _, _, ⟨w, hw, ew⟩, _⟩ := C06_store_correct (la := fun _ => none)
+    (by decide) exStateS_boundary exStateS_heapRel (toStore := exCtx4) (rem := []) (by decide) exEnv4 hop 0
+  refine ⟨code, k', st', hrun, hx, ?_⟩
+  have : posTemp (2 * ([] : Ctx).length) = .reg 4 := rfl
+  rw [this] at hw
+  rw [hw]; congr 1; exact BitVec.eq_of_toNat_eq (by rw [ew]; rfl)
+
 example : ∃ code st', (eraseBlock (.reg 6)).run 0 = .ok (code, 3) ∧
     execFwd {} (fun _ => none) code exStateH = .ok (st', .next) ∧ regIs st' FREE 0x10000080#64 := by
   obtain ⟨code, hrun, st', hx, _, R', _⟩ := eraseBlock_contract (la := fun _ => none) (by decide)
@@ -415,3 +544,5 @@ end Scc.X86
 #print axioms Scc.X86.C06_share_block_correct
 #print axioms Scc.X86.C06_erase_block_correct
 #print axioms Scc.X86.C06_machine_steps_fwd
+#print axioms Scc.X86.C06_acquire_block_correct
+#print axioms Scc.X86.C06_store_correct
